@@ -131,7 +131,7 @@ Proof.
   - unfold CF2 in *. rewrite He, Hn. eapply Forall2_imp; [|exact H2].
     intros a b [X Y]. split; [exact X|]. now apply (CRT_eq o s s').
   - rewrite Hdt, Hnd. eapply Forall2_imp; [|exact D1].
-    intros a b (X & Y & Z). split; [exact X|]. split; [now apply (CR_eq o s s')|]. now rewrite Hr.
+    intros a b (X & Y & Z). split; [exact X|]. split; [now apply (CRT_eq o s s')|]. now rewrite Hr.
   - now rewrite Hde, Hdt.
 Qed.
 (** the tables never mention a record that does not exist yet *)
@@ -151,7 +151,7 @@ Proof.
   intros e s rid (HR & HC & H2 & [D1 D2]) Hle. split; [exact HR|]. split; [|split; [|split]].
   - intros nm ci H. destruct (HC nm ci H) as (cid & A & B & C). exists cid. split; [exact A|]. split; [exact B|]. intros _. apply C. discriminate.
   - eapply Forall2_imp; [|exact H2]. intros a b [X Y]. split; [exact X|now apply CRT_fresh].
-  - eapply Forall2_imp; [|exact D1]. intros a b (X & Y & Z). split; [exact X|]. split; [now apply CR_fresh|exact Z].
+  - eapply Forall2_imp; [|exact D1]. intros a b (X & Y & Z). split; [exact X|]. split; [now apply CRT_fresh|exact Z].
   - exact D2.
 Qed.
 Lemma Inh_VR : forall o e s s', Inh o e s -> VR s s' -> Inh o e s'.
@@ -1598,7 +1598,7 @@ Proof.
   - unfold CF2 in *. rewrite He, Hc. eapply Forall2_imp; [|exact H2].
     intros a b [X Y]. split; [exact X|]. eapply CRT_rec_update; eassumption.
   - rewrite Hdt, Hd. eapply Forall2_imp; [|exact D1].
-    intros a b (X & Y & Z). split; [exact X|]. split; [eapply CR_rec_update; eassumption|].
+    intros a b (X & Y & Z). split; [exact X|]. split; [eapply CRT_rec_update; eassumption|].
     intros r H. rewrite Hr, nthN_set_nth in H. destruct (N.eqb rid (snd b)); [|now apply Z].
     destruct (nthN (s_recs s) (snd b)) as [r0|] eqn:E; [|discriminate]. simpl in H. injection H as <-.
     rewrite Hcl. now apply Z.
@@ -2710,8 +2710,8 @@ Proof.
       * intros id Hid. rewrite Hr. now apply nthN_app_lt.
       * apply GRW_same; auto. exists []. now rewrite Hl, app_nil_r.
   - unfold CF2 in *. rewrite He, Hn. eapply Forall2_imp; [|exact H2]. intros a b [X Y]. split; [exact X|]. eapply CRT_app; eassumption.
-  - rewrite Hdt, Hnd. eapply Forall2_imp; [|exact D1]. intros a b (X & Y & Z). split; [exact X|]. split; [eapply CR_app; eassumption|].
-    destruct Y as (Yv & _). eapply class_false_app; eassumption.
+  - rewrite Hdt, Hnd. eapply Forall2_imp; [|exact D1]. intros a b (X & Y & Z). split; [exact X|]. split; [eapply CRT_app; eassumption|].
+    destruct Y as ((Yv & _) & _). eapply class_false_app; eassumption.
   - now rewrite Hde, Hdt.
 Qed.
 
@@ -2741,7 +2741,11 @@ Proof.
       intros Ho. apply (FLDT_same_recs (set_names (s_nclass s) (s_ndef s) (s_nmc s1) s1) s1); [exact (Y2 Ho)|reflexivity|].
       split; [exists []; simpl; now rewrite app_nil_r|].
       split; [exists [(nm, lenN (s_recs s))]; simpl; exact Hn|exists []; simpl; exact Hnd].
-  - simpl. rewrite Hnd. exact D1.
+  - simpl. rewrite Hnd. eapply Forall2_imp; [|exact D1]. intros a b (X & [Y1 Y2] & Z). split; [exact X|]. split; [|exact Z].
+    split; [exact Y1|].
+    intros Ho. apply (FLDT_same_recs (set_names (s_nclass s) (s_ndef s) (s_nmc s1) s1) s1); [exact (Y2 Ho)|reflexivity|].
+    split; [exists []; simpl; now rewrite app_nil_r|].
+    split; [exists [(nm, lenN (s_recs s))]; simpl; exact Hn|exists []; simpl; exact Hnd].
   - exact D2.
 Qed.
 Lemma Inh_app_def : forall e s s1 r nm loc,
@@ -2765,10 +2769,16 @@ Proof.
     intros Ho. apply (FLDT_same_recs (set_names (s_nclass s) (s_ndef s) (s_nmc s1) s1) s1); [exact (Y2 Ho)|reflexivity|].
     split; [exists []; simpl; now rewrite app_nil_r|].
     split; [exists []; simpl; exact Hn|exists [(nm, lenN (s_recs s))]; simpl; exact Hnd].
-  - unfold set_def. simpl. rewrite Hnd. constructor; [|exact D1].
-    split; [reflexivity|]. simpl. split.
-    + split; [rewrite Hr, nthN_app_last; discriminate|]. split; [intros X; congruence|reflexivity].
-    + intros r0 H. rewrite Hr, nthN_app_last in H. injection H as <-. exact Hcl.
+  - unfold set_def. simpl. rewrite Hnd. constructor.
+    + split; [reflexivity|]. simpl. split.
+      * split; [|intros X; congruence].
+        split; [rewrite Hr, nthN_app_last; discriminate|]. split; [intros X; congruence|reflexivity].
+      * intros r0 H. rewrite Hr, nthN_app_last in H. injection H as <-. exact Hcl.
+    + eapply Forall2_imp; [|exact D1]. intros a b (X & [Y1 Y2] & Z). split; [exact X|]. split; [|exact Z].
+      split; [exact Y1|].
+      intros Ho. apply (FLDT_same_recs (set_names (s_nclass s) (s_ndef s) (s_nmc s1) s1) s1); [exact (Y2 Ho)|reflexivity|].
+      split; [exists []; simpl; now rewrite app_nil_r|].
+      split; [exists []; simpl; exact Hn|exists [(nm, lenN (s_recs s))]; simpl; exact Hnd].
   - unfold set_def. simpl. now rewrite D2.
 Qed.
 
@@ -2826,35 +2836,38 @@ Proof.
   - simpl. rewrite Hdt, Hnd in D1. rewrite Hnd.
     eapply Forall2_imp; [|apply (Forall2_and _ _ _ _ _ _ D10 D1)].
     intros a0 b0 [(X0 & Y0 & Z0) (X & Y & Z)]. split; [exact X|]. split; [|exact Z].
-    eapply CR_close; [exact Y0|apply N.le_refl|exact Y].
+    eapply CRT_close; [exact Y0|apply N.le_refl|exact Y].
   - simpl. exact D20.
 Qed.
 (** ... the same for a named def: its field table is entered; and nothing is entered for an anonymous def *)
 Lemma Inh_close_def : forall f e e4 s s3 nm loc,
     Inh None e s -> RB f e4 s3 (lenN (s_recs s)) ->
-    e_cls e4 = e_cls e -> e_dtbl e4 = (nm, []) :: e_dtbl e -> e_defs e4 = (nm, loc) :: e_defs e ->
+    e_cls e4 = e_cls e -> e_dtbl e4 = (nm, mkCi loc [] []) :: e_dtbl e -> e_defs e4 = (nm, loc) :: e_defs e ->
     s_nclass s3 = s_nclass s -> s_ndef s3 = (nm, lenN (s_recs s)) :: s_ndef s ->
-    Inh None (set_dtbl (set_def e nm loc) (top_fields e4)) s3.
+    Inh None (set_dtbl (set_def e nm loc) (top_fields e4) (top_tfields e4)) s3.
 Proof.
   intros f e e4 s s3 nm loc HI0 R He Hdt Hde Hn Hnd.
   destruct R as [vars t fr frs rc Hsc Hfe Hrec Hlast Av Af At HI HS HT T1 T2 T3].
   destruct HI as (HR & HC & H2 & [D1 D2]). destruct HI0 as (HR0 & HC0 & H20 & [D10 D20]).
   assert (Hfld : FLD s3 (lenN (s_recs s)) (top_fields e4)) by (unfold top_fields; rewrite Hfe; exact Af).
+  assert (Hfldt : FLDT s3 (lenN (s_recs s)) (top_tfields e4)).
+  { destruct HT as (tf & tfs & Htf & _ & _ & _ & _ & FT & _). unfold top_tfields. rewrite Htf. exact FT. }
   split; [exact HR|]. split; [|split; [|split]].
   - intros n0 ci H. change (lookup n0 (e_cls e) = Some ci) in H. assert (H' := H). rewrite <- He in H'.
     destruct (HC n0 ci H') as (cid & A & B & C). exists cid. split; [exact A|]. split; [exact B|]. intros _. apply C.
     destruct (HC0 n0 ci H) as (cid0 & A0 & B0 & _). unfold find_class in A, A0. rewrite Hn in A. assert (cid0 = cid) by congruence. subst cid0.
     destruct (nthN (s_recs s) cid) eqn:E; [|congruence]. apply nthN_some_lt in E. intros X. injection X as X. unfold lenN in X. lia.
-  - unfold CF2 in *. change (e_cls (set_dtbl (set_def e nm loc) (top_fields e4))) with (e_cls e). rewrite He, Hn in H2. rewrite Hn.
+  - unfold CF2 in *. change (e_cls (set_dtbl (set_def e nm loc) (top_fields e4) (top_tfields e4))) with (e_cls e). rewrite He, Hn in H2. rewrite Hn.
     eapply Forall2_imp; [|apply (Forall2_and _ _ _ _ _ _ H20 H2)].
     intros a0 b0 [[X0 Y0] [X Y]]. split; [exact X|]. eapply CRT_close; [exact Y0|apply N.le_refl|exact Y].
   - rewrite Hdt, Hnd in D1. inversion D1 as [|a b l l' Hab Ft]; subst.
     unfold set_dtbl, set_def. simpl. rewrite Hnd. constructor.
-    + destruct Hab as (X & Y & Z). split; [reflexivity|]. simpl. split; [|exact Z].
-      split; [simpl in *; congruence|]. split; [intros _; exact Hfld|discriminate].
+    + destruct Hab as (X & [Y Y'] & Z). split; [reflexivity|]. simpl. split; [|exact Z].
+      split; [|intros _; exact Hfldt].
+      split; [destruct Y as (Yv & _); simpl in *; congruence|]. split; [intros _; exact Hfld|discriminate].
     + eapply Forall2_imp; [|apply (Forall2_and _ _ _ _ _ _ D10 Ft)].
       intros a0 b0 [(X0 & Y0 & Z0) (X & Y & Z)]. split; [exact X|]. split; [|exact Z].
-      eapply CR_close; [exact Y0|apply N.le_refl|exact Y].
+      eapply CRT_close; [exact Y0|apply N.le_refl|exact Y].
   - unfold set_dtbl, set_def. simpl. now rewrite D20.
 Qed.
 Lemma Inh_close_anon : forall f e e4 s s3,
@@ -2876,7 +2889,7 @@ Proof.
   - rewrite Hdt, Hnd in D1. rewrite Hnd.
     eapply Forall2_imp; [|apply (Forall2_and _ _ _ _ _ _ D10 D1)].
     intros a0 b0 [(X0 & Y0 & Z0) (X & Y & Z)]. split; [exact X|]. split; [|exact Z].
-    eapply CR_close; [exact Y0|apply N.le_refl|exact Y].
+    eapply CRT_close; [exact Y0|apply N.le_refl|exact Y].
   - exact D20.
 Qed.
 
@@ -3087,7 +3100,7 @@ Lemma spec_def_eq : forall f e nm r ps b,
     = let e0 := match name_ident nm with Some i => set_def e (i_name i) (at_file f (i_rng i)) | None => e end in
       let '(ev2, e3) := spec_parents f (push_vars e0 []) ps in
       let '(ev3, e4) := spec_items f e3 b in
-      (ev2 ++ ev3, match name_ident nm with Some _ => set_dtbl e0 (top_fields e4) | None => e0 end).
+      (ev2 ++ ev3, match name_ident nm with Some _ => set_dtbl e0 (top_fields e4) (top_tfields e4) | None => e0 end).
 Proof. intros. reflexivity. Qed.
 
 Section CasesB6.
@@ -3183,7 +3196,7 @@ Section CasesB7.
       { split; [exists []; now rewrite Hl, app_nil_r|]. split; [exists []; exact Hnc|exists [(i_name i, lenN (s_recs s))]; exact Hnd]. }
       assert (HI1 : Inh (Some (lenN (s_recs s))) e0 s1) by (unfold e0; eapply Inh_app_def; eauto).
       pose proof (record_tail files n (SDef (Some (Val rv (Inner (SId i) sufs :: rest))) r ps b) f e e0
-                              (fun e4 => set_dtbl e0 (top_fields e4)) s s1 (lenN (s_recs s)) (i_name i) false mloc ps b
+                              (fun e4 => set_dtbl e0 (top_fields e4) (top_tfields e4)) s s1 (lenN (s_recs s)) (i_name i) false mloc ps b
                               eq_refl Hfp Hfb P T He HI eq_refl eq_refl Hsc Hm Hl Hr eq_refl HG1 Hu Hn HI1) as X.
       destruct (spec_parents f (push_vars e0 []) ps) as [ev2 e3] eqn:Ep. cbn [fst snd] in X.
       destruct (spec_items f e3 b) as [ev3 e4] eqn:Ei. cbn [fst snd] in X. simpl in HR |- *.
@@ -3193,7 +3206,7 @@ Section CasesB7.
       + unfold e0. rewrite <- Hloc. apply (Pre2g_add_record f e s (i_name i) false mloc [] []). now apply Pre2_g.
       + intros e5. split; reflexivity.
       + intros e5 [(A & B & C & D) _]. split; [|split; [|split]].
-        * intros n0. unfold lookup_class. change (e_cls (set_dtbl e0 (top_fields e5))) with (e_cls e0). now rewrite A.
+        * intros n0. unfold lookup_class. change (e_cls (set_dtbl e0 (top_fields e5) (top_tfields e5))) with (e_cls e0). now rewrite A.
         * change (e_mcs e0 = e_mcs e5). now rewrite B.
         * change (e_defs e0 = e_defs e5). now rewrite C.
         * change (e_dsets e0 = e_dsets e5). now rewrite D.
